@@ -31,7 +31,12 @@ RULE = ("catalogue of pairs of queries that differ in one component (types 1/257
         "it), the selector's reference sub-query carrying it to the cache under the rewritten type; every execution of "
         "the cache and every lazy update is joined, then the question and (owner, rrtype) of the records of every reply "
         "and of whatever the store holds under the key of every (name, A/AAAA/TXT, IN/CH) are recorded; histories also "
-        "record name/type/class of the question section of every served cached answer. A pair is non-trivial when both queries are "
+        "record name/type/class of the question section of every served cached answer; histories with dump and reload "
+        "through the real GET /dump and POST /load_dump handlers (several different questions stored, dump, reload into "
+        "the same Cache, after a flush, on top of newer entries or into a new Cache = restart, then every question asked "
+        "again; optionally a second generation); redirect + lazy runs in which the background refresh of a stale hit "
+        "does not land (upstream error, no response, truncated reply) and the target and another alias are asked "
+        "afterwards in both orders. A pair is non-trivial when both queries are "
         "cacheable and differ in exactly one of name/type/class/AD/CD/DO; a history when it has a hit and at least two "
         "cacheable non-hits; a redirect+lazy run when a background update followed a redirected stale hit and a "
         "query came after it; a chain run when a response was present on entry or the selector ran its reference "
@@ -65,7 +70,8 @@ LEVEL_TEXT = ("Theorems in coq/Properties/C04.v: the key built by getMsgKey is i
               "query's own question; whatever the store holds under a key answers a query with that key (a lazy background update "
               "is the step Query q r r for the query it was started for, and Judge.C04.lazy_run runs redirect + lazy cache "
               "that way, and Judge.C04.chain_run runs a response already present in the context and the dual_selector's "
-              "sub-queries as such steps); the same question is served the stored answer; the Judge's oracle same_qf_b is proved "
+              "sub-queries as such steps); loading a dump yields under a key only what the dump or the cache held under that key "
+              "(Judge.C04.hist_run runs dump / reload steps that way); the same question is served the stored answer; the Judge's oracle same_qf_b is proved "
               "equivalent to the theorems' notion. The model is run inside Coq on every case the Go driver observed.")
 LEVEL_NOTE = ("Trusted: Coq kernel + vm_compute; hand-written model tied to the code by the differential run and Gen/Constants.v; "
               "Go string equality of map keys; IsEdns0/Do as modelled. No axioms. Kept refutations show the pre-repair key "
